@@ -40,6 +40,7 @@ func init() {
 			{Worlds: []string{"stake6"}, Quick: b(1, 1, 2), Thorough: b(2, 2, 3)},
 			{Worlds: []string{"stakepending"}, Quick: b(1, 1, 3), Thorough: b(2, 2, 4)},
 			{Worlds: []string{"stakefull"}, Quick: b(1, 1, 2), Thorough: b(2, 2, 3)},
+			{Worlds: []string{"stakefullcoin"}, Quick: b(2, 2, 3), Thorough: b(3, 2, 3)},
 			{Worlds: []string{"stakemany"}, Quick: b(1, 1, 2), Thorough: b(2, 1, 3)},
 			{Worlds: []string{"stakemany102"}, Quick: b(1, 1, 2), Thorough: b(1, 1, 3)},
 			{Worlds: []string{"stakemanytie"}, Quick: b(1, 1, 2), Thorough: b(2, 2, 3)},
